@@ -2,7 +2,7 @@
     Statements only; proofs are in Proofs/Compare.v.  The scanner lemma is Proofs/Scan.v:
     str_to_number recognises exactly the StringNumericLiteral grammar (str_to_number_spec). *)
 From Coq Require Import List Bool.
-From JL Require Import Base.Json Base.F64 Base.Str Base.Dec2Flt Base.Monad Model.JsOp Model.Ops Spec.Specs Proofs.Compare Proofs.Scan Proofs.CharTables Gen.CharTable.
+From JL Require Import Base.Json Base.F64 Base.Str Base.Dec2Flt Base.Monad Model.JsOp Model.Ops Spec.Specs Proofs.Compare Proofs.Scan Proofs.CharTables Gen.CharTable Proofs.ModelLaws.
 From Coq Require Import String NArith ZArith.
 Local Open Scope string_scope.
 Import ListNotations.
@@ -64,3 +64,10 @@ Example C07_nonvacuous :
   es_eq (Arr []) (Arr []) = false /\
   es_eq (Bool true) (Str (lit "1")) = true.
 Proof. vm_compute. repeat split. Qed.
+
+(** == and != of the code are symmetric, and != is the negation of == (Proofs/ModelLaws.v) *)
+Theorem C07_code_symmetric :
+  forall a b, abstract_eq a b = abstract_eq b a /\ abstract_ne a b = abstract_ne b a /\
+              abstract_ne a b = negb (abstract_eq a b).
+Proof. exact (fun a b => conj (code_abstract_eq_sym a b) (conj (code_abstract_ne_sym a b) (code_ne_is_not_eq a b))). Qed.
+Print Assumptions C07_code_symmetric.
